@@ -757,8 +757,9 @@ class Evaluator:
                 self.assign(t2, v2, fr, st)
             return
         if isinstance(target, (ast.Tuple, ast.List)) and not any(isinstance(x, ast.Starred) for x in target.elts):
+            parts = self.unpack(v, len(target.elts))
             for i, t2 in enumerate(target.elts):
-                self.assign(t2, ("item", v, i), fr, st)
+                self.assign(t2, parts[i] if parts is not None else ("item", v, i), fr, st)
             return
         if isinstance(target, ast.Attribute) and isinstance(target.value, ast.Name) \
                 and fr.env.get(target.value.id, ("?",))[0] == "new":
@@ -993,6 +994,21 @@ class Evaluator:
                                 hit = True
             cache[key] = hit
         return cache[key]
+
+    def unpack(self, v: Term, n: int) -> Optional[List[Term]]:
+        """the n components of a value that is unpacked: a display, or a NamedTuple built on the spot (field order)"""
+        while v[0] == "var" and len(v) == 4 and v[3][0] in ("tuple", "list", "new"):
+            v = v[3]
+        if v[0] in ("tuple", "list") and len(v[1]) == n and not any(x[0] == "star" for x in v[1]):
+            return list(v[1])
+        if v[0] == "new":
+            c = self.model.maybe_cls(v[1])
+            if c is not None and is_named_tuple(c):
+                names = named_tuple_fields(c)
+                d = dict(v[2])
+                if len(names) == n and all(k in d for k in names):
+                    return [d[k] for k in names]
+        return None
 
     def narrow(self, c: Term):
         """isinstance(x, T) taken as true narrows the static type of x to T (only ever to a subclass)."""
@@ -1283,6 +1299,16 @@ class Evaluator:
         if f[0] == "call" and (f[1] == "attrgetter" or f[1] == ("global", "attrgetter") or (isinstance(f[1], tuple) and f[1][-1:] == ("attrgetter",))) \
                 and len(f[2]) == 1 and f[2][0][0] == "const" and isinstance(f[2][0][1], str) and "." not in f[2][0][1]:
             return self.attr(arg, f[2][0][1], fr)
+        if f[0] == "global" and f[1] in ("float", "int", "str", "bool", "abs", "len", "type", "repr", "hash"):
+            n = f[1]
+            if n in ("int", "float"):
+                if arg[0] == "lin" or number(arg) is not None:
+                    return arg if n == "float" else (("call", "int", (arg,), ()) if number(arg) is None else arg)
+                if arg[0] == "const" and isinstance(arg[1], bool):
+                    return lin({}, Fraction(int(arg[1])))
+            if n == "bool":
+                return arg
+            return ("call", n, (arg,), ())
         if f[0] == "cls":
             c = self.model.maybe_cls(f[1])
             if c is not None:
@@ -1335,7 +1361,22 @@ class Evaluator:
         if short == "chain" and fname.split(".")[-1] == "chain" and len(args) >= 1 and tail2 != "chain.from_iterable":
             return ("concat", tuple(args))
         if short in ("list", "tuple") and len(args) == 1 and args[0][0] == "comp" and args[0][1] == "gen":
-            return ("comp", "list") + args[0][2:]
+            c = args[0]
+            if len(c[3]) == 1 and not c[3][0][1]:
+                dom = c[3][0][0]
+                while dom[0] == "var" and len(dom) == 4:
+                    dom = dom[3]
+                if dom[0] in ("tuple", "list") and len(dom[1]) <= 8 and not any(x[0] == "star" for x in dom[1]):
+                    bs = subterms(c[2], lambda x: x[0] == "bound" and isinstance(x[1], int) and x[3] == show(c[3][0][0]))
+                    if len(bs) <= 1:
+                        return (short, tuple(subst(c[2], {bs[0]: item}) if bs else c[2] for item in dom[1]))
+            return ("comp", "list") + c[2:]
+        if short == "list" and len(args) == 1 and args[0][0] == "call" and isinstance(args[0][1], tuple) and args[0][1] == ("attr", ("global", "dict"), "fromkeys") \
+                and len(args[0][2]) == 1 and not args[0][3]:
+            # ``list(dict.fromkeys(xs))``: first occurrences in order -- the library's unique_in_order (whose meaning C19.I4 decides)
+            u = [x for x in self.model.all_functions() if x.name == "unique_in_order" and x.kind == "function"]
+            if len(u) == 1:
+                return ("call", ("fn", u[0].qualname), (), (("iterable", args[0][2][0]),))
         return None
 
     def bind_args(self, f: FunctionInfo, args: List[Term], kwargs: List[Tuple[str, Term]], skip_self: bool) -> Optional[Dict[str, Term]]:
@@ -1392,6 +1433,8 @@ class Evaluator:
             names = [p.arg for p in init.node.args.posonlyargs + init.node.args.args][1:]
         elif any(k.is_dataclass for k in c.mro()):
             names = [n for n, f in c.all_fields().items() if f.init]
+        elif is_named_tuple(c):
+            names = named_tuple_fields(c)
         if names is None or any(x[0] == "star" for x in args) or len(args) > len(names):
             return ("call", ("cls", c.name), tuple(args), tuple(kwargs))
         bound = list(zip(names, args)) + [(k, v) for k, v in kwargs]
@@ -1418,6 +1461,14 @@ def expand_dict(t: Term) -> Optional[List[Tuple[Term, Term]]]:
             b = bs[0]
             return [(subst(t[1], {("item", b, 0): k, ("item", b, 1): v}), subst(t[2], {("item", b, 0): k, ("item", b, 1): v})) for k, v in src]
     return None
+
+
+def is_named_tuple(c: ClassInfo) -> bool:
+    return any((b if isinstance(b, str) else b.name).split(".")[-1] == "NamedTuple" for b in c.bases)
+
+
+def named_tuple_fields(c: ClassInfo) -> List[str]:
+    return [st.target.id for st in c.node.body if isinstance(st, ast.AnnAssign) and isinstance(st.target, ast.Name)]
 
 
 def _never_none(t: Term) -> bool:
